@@ -21,11 +21,13 @@ def _lean_dir():
     try:
         # sources always from /verif/lean (Generated/ is rewritten by regenerate() afterwards); keep the copy's own build cache
         first = not os.path.isdir(os.path.join(d, ".lake"))
-        cmd = ["rsync", "-a", "--delete", "--exclude", ".lake/", "--exclude", "StepModel/Generated/", LEAN_SRC + "/", d + "/"]
+        # Generated/ starts every run from /verif/lean's tables (= /repo HEAD): the run's own extractors then overwrite
+        # theirs from the tree under test; a table whose extractor raises on that tree (reported as a broken tie) and
+        # the tables of other properties' models that the run only imports stay HEAD's instead of going stale
+        cmd = ["rsync", "-a", "--delete", "--exclude", ".lake/", LEAN_SRC + "/", d + "/"]
         subprocess.run(cmd, check=True)
         if first:
             subprocess.run(["rsync", "-a", os.path.join(LEAN_SRC, ".lake"), d + "/"], check=False)
-            subprocess.run(["rsync", "-a", os.path.join(LEAN_SRC, "StepModel", "Generated"), os.path.join(d, "StepModel") + "/"], check=False)
     finally:
         fcntl.flock(lock, fcntl.LOCK_UN); lock.close()
     return d
